@@ -11,11 +11,11 @@ import numpy as np
 from ..common import CaseTimeout, V, alarm, samples_of, seed_offset
 from ..refmodels import dak
 
-ROOT_TOL = 1e-6
+ROOT_TOL = 1e-9  # on the residual of the EOS in units of Z (correct code: 1e-14; a root finder stopped at 1e-8 is flagged)
 K1_SIG = "C06:K1-first-density-coefficient-A1*A2/Tr"
 PCS = [(-102.2, 648.5), (-55.0, 620.0)]  # two pseudocritical points (F, psia)
 TRS_Q = [1.05, 1.1, 1.2, 1.35, 1.5, 1.75, 2.0, 2.4, 3.0]
-PRS_Q = [1e-4, 1e-3, 0.01, 0.1, 0.2, 0.5, 1, 1.5, 2, 3, 4, 5, 6.5, 8, 10, 12, 14, 16, 18, 20, 22, 25, 28, 30]
+PRS_Q = [1e-12, 1e-10, 1e-8, 1e-6, 1e-4, 1e-3, 0.01, 0.1, 0.2, 0.5, 1, 1.5, 2, 3, 4, 5, 6.5, 8, 10, 12, 14, 16, 18, 20, 22, 25, 28, 30]
 
 
 def state(tr, pr, pc):
@@ -159,9 +159,10 @@ def eval_table(case):
     from bluebonnet.fluids import build_pvt_gas, gas  # noqa: PLC0415
 
     g, T = case["gravity"], case["T"]
-    tab = build_pvt_gas({"N2": 0.0, "H2S": 0.0, "CO2": 0.0, "Gas Specific Gravity": g,
-                         "Reservoir Temperature (deg F)": T}, "dry gas", maximum_pressure=case["pmax"])
-    tpc, ppc = gas.pseudocritical_point_Sutton(g, gas.make_nonhydrocarbon_properties(0.0, 0.0, 0.0), "dry gas")
+    cont, dry = case.get("cont", [0.0, 0.0, 0.0]), case.get("dry", "dry gas")
+    tab = build_pvt_gas({"N2": cont[0], "H2S": cont[1], "CO2": cont[2], "Gas Specific Gravity": g,
+                         "Reservoir Temperature (deg F)": T}, dry, maximum_pressure=case["pmax"])
+    tpc, ppc = gas.pseudocritical_point_Sutton(g, gas.make_nonhydrocarbon_properties(*cont), dry)
     tr = (T + 459.67) / (tpc + 459.67)
     viol, kinds = [], {}
     idx = sorted(set(range(0, len(tab), case["stride"])) | set(range(max(0, len(tab) - 12), len(tab))) | set(range(min(12, len(tab)))))
@@ -190,7 +191,7 @@ def cases(tier, seed):
     off = seed_offset(seed)
     if thorough:
         trs = list(np.round(np.linspace(1.05, 3.0, 40), 4))
-        prs = list(np.round(np.geomspace(1e-4, 30, 120), 6))
+        prs = [1e-12, 1e-11, 1e-10, 1e-9, 1e-8, 1e-7, 1e-6, 1e-5] + list(np.round(np.geomspace(1e-4, 30, 120), 6))
     else:
         trs, prs = list(TRS_Q), list(PRS_Q)
     if seed:
@@ -221,12 +222,25 @@ def cases(tier, seed):
     out.append({"kind": "history", "calls": [list(c) for c in base + base[::-1]]})
     for g, T in itertools.product([0.6, 0.9], [150.5, 287.25]):
         out.append({"kind": "table", "gravity": g, "T": T, "pmax": 14000, "stride": 1 if thorough else 20})
+    # a wet and a contaminated composition: the row's reduced state comes from ITS pseudocritical point
+    out.append({"kind": "table", "gravity": 0.75, "T": 231.5, "pmax": 14000, "stride": 1 if thorough else 20, "dry": "wet gas"})
+    out.append({"kind": "table", "gravity": 0.7, "T": 180.25, "pmax": 14000, "stride": 1 if thorough else 20,
+                "cont": [0.03, 0.012, 0.018], "dry": "wet gas"})
+    out.append({"kind": "table", "gravity": 0.8, "T": 305.75, "pmax": 14000, "stride": 1 if thorough else 20,
+                "cont": [0.0, 0.08, 0.05]})
     for tr in ((1.05, 1.1, 1.2, 1.35, 1.5, 1.75, 2.0, 2.4, 3.0) if thorough else (1.05, 1.5, 3.0)):
         out.append({"kind": "sweep", "tr": tr, "lo": 0.05, "hi": 30.0, "n": 600 if thorough else 300, "pc": 0})
     hts = np.arange(1.2, 3.0001, 0.01 if thorough else 0.05)
     hps = np.concatenate([[1e-8, 1e-6, 1e-5, 3e-5, 1e-4, 1e-3, 5e-3, 0.01, 0.02, 0.05, 0.1, 0.2, 0.35],  # the low end of (0, 24]
                           np.arange(0.1 if thorough else 0.5, 24.0001, 0.1 if thorough else 0.5)])
     out += [{"kind": "hy", "tr": float(round(t, 4)), "pr": float(f"{p:.6g}")} for t, p in itertools.product(hts, hps)]
+    # a second, irrational-offset (Kronecker) lattice, enumerated completely: a stalled iteration hits ~1e-4 of all
+    # states and none of the round-number ones above
+    n_k = 200000 if thorough else 40000
+    k = np.arange(1, n_k + 1) + 1000 * seed
+    t_k = 1.2 + 1.8 * ((k * 0.6180339887498949) % 1.0)
+    p_k = 24.0 * ((k * 0.41421356237309503) % 1.0) ** 1.5 + 1e-3
+    out += [{"kind": "hy", "tr": float(round(t, 7)), "pr": float(round(p, 7))} for t, p in zip(t_k, p_k)]
     return out
 
 
